@@ -27,13 +27,15 @@ def instances(tier):
     for (k, i, b, vb) in ([(0, 0, 0, 1), (0, 1, 1, 8), (1, 0, 0, 0), (1, 2, 1, 0), (2, 1, 0, 0)] if tier == 'quick' else
                           [(k, i, b, vb) for k in (0, 1, 2) for i in (0, 1, 2) for b in (0, 1) for vb in ((0, 8) if k == 0 else (0,))]):
         out.append((T, 'VH_C16_Message', [k, i, b, vb], {'weight': 30}))
+    for hi in (0, 1):
+        out.append(('ton', 'VH_C04_external_message', [hi], {'weight': 20}))
     return out
 
 
 CHECK = dict(
-    id='C04', pkgs=['tlb'], init_pkgs=['std:io', 'boc', 'tlb'], instances=instances, opts={'budget_s': 1200},
+    id='C04', pkgs=['tlb', 'ton'], init_pkgs=['std:io', 'boc', 'tlb'], instances=instances, opts={'budget_s': 1200},
     gen=[('harness/gen/gen_ints.py', 'tlb', 'gen_ints.go'), ('harness/gen/gen_bigints.py', 'tlb', 'gen_bigints.go')],
-    level_text='The cell produced by the real encoders is compared bit for bit (and reference for reference) with an independent specification encoder written on an ideal bit list: big-endian twos-complement intN/uintN of every generated width, VarUInteger n with minimal byte length, Grams/SignedCoins, all four MsgAddress constructors with anycast, ShardIdent (tagged), Maybe/Either/Ref flags and references, CommonMsgInfo (3 constructors), StateInit (inline and in a reference), Message -- for ALL leaf values within the stated sizes.',
+    level_text='The cell produced by the real encoders is compared bit for bit (and reference for reference) with an independent specification encoder written on an ideal bit list: big-endian twos-complement intN/uintN of every generated width, VarUInteger n with minimal byte length, Grams/SignedCoins, all four MsgAddress constructors with anycast, ShardIdent (tagged), Maybe/Either/Ref flags and references, CommonMsgInfo (3 constructors), StateInit (inline and in a reference), Message -- for ALL leaf values within the stated sizes; the external-message envelope built by ton.CreateExternalMessage (every int8 workchain and address, with and without a state-init) has exactly the block.tlb layout: ext_in_msg_info, addr_none source, zero import fee, init and body in references.',
     level_note='The specification encoders are transcribed from block.tlb in the harness (vSpecBits, vSpecGrams, ...); they share no code with boc.BitString writers. Structures not listed and mainnet records are outside the check.',
     bounds={'quick': {'int widths': [1, 2, 7, 8, 9, 15, 16, 31, 32, 33, 56, 57, 58, 63, 64], 'bit offset': 5}, 'thorough': {'int widths': 'all', 'bit offsets': [0, 2, 5, 7]}},
     outside_claim=['re-encoding of mainnet records', 'wallet bodies (see C14)', 'account/transaction records', 'dictionaries (C05)'],
